@@ -53,6 +53,8 @@ type WorkerArgs struct {
 // FoundViolation is a violation together with its scenario.
 type FoundViolation struct {
 	Run      uint64          `json:"run"`
+	K        int             `json:"k"` // worker index and count: the worker executed runs K, K+N, ... before Run
+	N        int             `json:"n"`
 	V        Violation       `json:"violation"`
 	Scenario json.RawMessage `json:"scenario"`
 }
@@ -180,7 +182,7 @@ func RunWorker(a WorkerArgs) int {
 				}
 				continue
 			}
-			out.Violation = &FoundViolation{Run: uint64(i), V: *res.Violation, Scenario: raw}
+			out.Violation = &FoundViolation{Run: uint64(i), K: a.K, N: a.N, V: *res.Violation, Scenario: raw}
 			break
 		}
 	}
